@@ -111,6 +111,26 @@ fn main() {
             run_conn_cases(&cases, &tmpdir, &mut out);
             let _ = (run_case, Timing::default());
         }
+        "srv" => {
+            use verif_harness::srvrun as sv;
+            let what = args.get(2).map(|s| s.as_str()).unwrap_or("drop");
+            let n: usize = args.get(3).and_then(|s| s.parse().ok()).unwrap_or(4);
+            let mut jobs: Vec<Box<dyn FnOnce() -> String + Send>> = vec![];
+            let mut id = 0usize;
+            for w in what.split('+') {
+                match w {
+                    "drop" => for k in 0..n { let t = tmpdir.clone(); let i = id; id += 1; jobs.push(Box::new(move || sv::drop_case(i, k % 2 == 1, &t))); },
+                    "burst" => for k in 0..n { let i = id; id += 1; let sz = [5usize, 16, 4, 8, 40][k % 5]; jobs.push(Box::new(move || sv::burst_case(i, sz))); },
+                    // one reclaim case per process (thread counts are per process): n = burst size
+                    "reclaim" => { let i = id; id += 1; jobs.push(Box::new(move || sv::reclaim_case(i, n))); },
+                    _ => {}
+                }
+            }
+            // thread counts are per process: the reclaim cases run one after another, nothing else in parallel
+            for j in jobs {
+                writeln!(out, "{}", j()).unwrap();
+            }
+        }
         "replay" => {
             let path = args.get(2).expect("replay file");
             let text = std::fs::read_to_string(path).expect("read replay file");
